@@ -197,7 +197,7 @@ impl Engine for FlightEngine {
         json!({"real": ["utils::singleflight::{Group, Call, OwnerTask}", "tokio Mutex/Notify/JoinHandle, parking_lot RwLock"], "simulated": ["arrival times, task durations (paused clock)", "scheduling between lock sections (H5 yield points)", "multi-threaded mode: OS-thread interleaving at H5 points, lock-aware points and pending polls", "shutdown of a caller's runtime mid-call"], "limit": "interleavings at lock-section granularity plus wherever a lock-aware point finds the result lock free; not at atomic-instruction granularity"})
     }
     fn assumptions(&self, _focus: &str) -> Vec<String> {
-        vec!["tokio's primitives are trusted; multi-threaded interleavings are emulated by yields/sleeps at the guarded points between lock sections and, in multi-threaded mode, by a cooperative thread scheduler (DESIGN §7 C20).".into()]
+        vec!["Synchronous (parking_lot) locks are acquired without a timeout: a schedule in which a thread runs while another is parked inside a held synchronous lock is not explored (it would deadlock the shipped code under the cooperative scheduler), so a failure that needs a wall-clock lock timeout is out of reach (DESIGN §10, seeded change C20-5).".into(), "tokio's primitives are trusted; multi-threaded interleavings are emulated by yields/sleeps at the guarded points between lock sections and, in multi-threaded mode, by a cooperative thread scheduler (DESIGN §7 C20).".into()]
     }
 }
 
